@@ -34,7 +34,8 @@ fn merge(run: &mut Run, name: &str, accs: Vec<Acc>, exhaustive: bool) {
     run.add("distinct_nontrivial", n);
     run.set(&format!("sub_{name}_evaluations"), e);
     run.set(&format!("sub_{name}_exhaustive"), exhaustive);
-    println!("C14 {name}: {e} evaluations, exhaustive={exhaustive}, {:.1}s", run.elapsed());
+    run.set(&format!("sub_{name}_nontrivial"), n);
+    println!("C14 {name}: {e} evaluations ({n} non-trivial), exhaustive={exhaustive}, {:.1}s", run.elapsed());
 }
 
 fn ll_ml(run: &mut Run) {
@@ -558,6 +559,60 @@ fn literal_headers(run: &mut Run, tier: Tier) {
         }
     });
     merge(run, "raw_literals_writer", accs, ex);
+    // the writer for Huffman-compressed literals, with a new table and with a reused one ("treeless"): every length
+    // (quick: 2..=4200 and around every power of two up to the block size). The content is skewed over four
+    // symbols so the section really is Huffman-coded at every length that can be.
+    static SKEW: std::sync::OnceLock<Vec<u8>> = std::sync::OnceLock::new();
+    let skew = SKEW.get_or_init(|| (0..MAX_BLOCK).map(|i| [b'a', b'a', b'a', b'b', b'a', b'c', b'a', b'a', b'b', b'a', b'd'][i % 11]).collect());
+    let lens: Vec<usize> = if tier == Tier::Thorough {
+        (2..=MAX_BLOCK).collect()
+    } else {
+        let mut v: Vec<usize> = (2..=4200).collect();
+        for k in 12..=17 {
+            for d in -3i64..=3 {
+                let x = (1i64 << k) + d;
+                if x as usize <= MAX_BLOCK {
+                    v.push(x as usize);
+                }
+            }
+        }
+        v.sort();
+        v.dedup();
+        v
+    };
+    let prior = guarded(|| rz::compress_literals(&skew[..4000], None)).ok().and_then(|x| x.1);
+    let accs = meter::par_fold(lens.len() * 2, th, Acc::default, |a, i| {
+        let n = lens[i / 2];
+        let reuse = i % 2 == 1;
+        a.evals += 1;
+        let rp = json!({"fn": "compress_literals", "len": n, "reuse_table": reuse});
+        let last = if reuse { prior.as_ref() } else { None };
+        if reuse && last.is_none() {
+            a.bad("MODEL: compress_literals:no_prior_table".into(), "compress_literals(4000 skewed literals) returned no table to reuse".into(), rp);
+            return;
+        }
+        match guarded(|| rz::compress_literals(&skew[..n], last)) {
+            Err(p) => a.bad("compress_literals:panic".into(), format!("compress_literals({n} literals, reuse = {reuse}) panicked: {p}"), rp),
+            Ok((b, _)) => match zmodel::walker::parse_literals_header(&b) {
+                // fell back to raw: the raw writer is covered above, the value must still be right
+                Ok((0, regen, None, _, hl)) if regen == n && b.len() == hl + n => {}
+                Ok((ty, regen, Some(comp), streams, hl)) if ty >= 2 => {
+                    a.nontrivial += 1;
+                    let sf = (b[0] >> 2) & 3;
+                    let fits = match sf {
+                        0 | 1 => n < 1 << 10 && comp < 1 << 10,
+                        2 => n < 1 << 14 && comp < 1 << 14,
+                        _ => n < 1 << 18 && comp < 1 << 18,
+                    };
+                    if regen != n || hl + comp != b.len() || !fits || (ty == 3) != reuse || (streams == 1) != (sf == 0) {
+                        a.bad(format!("compress_literals:header:sf{sf}"), format!("compress_literals({n} literals, reuse = {reuse}) wrote header {} which reads as type {ty}, regenerated {regen}, compressed {comp}, {streams} stream(s), {hl} header bytes; the section has {} bytes after the header", hex(&b[..b.len().min(5)]), b.len() - hl.min(b.len())), rp);
+                    }
+                }
+                other => a.bad("compress_literals:header".into(), format!("compress_literals({n} literals, reuse = {reuse}) wrote header {} read as {:?}", hex(&b[..b.len().min(5)]), other), rp),
+            },
+        }
+    });
+    merge(run, "compressed_literals_header_writer", accs, ex);
 }
 
 pub fn main(tier: Tier, replay: Option<Value>) -> i32 {
@@ -574,7 +629,7 @@ pub fn main(tier: Tier, replay: Option<Value>) -> i32 {
     literal_headers(&mut run, tier);
     let all = run.cov.iter().filter(|(k, _)| k.ends_with("_exhaustive")).all(|(_, v)| v.as_bool() == Some(true));
     run.set("exhaustive", all);
-    run.set("rule", "every value of each finite domain (literal lengths 0..=131071, match lengths 3..=131074, offset values, sequence counts 1..=98047, all 1/2/3-byte count patterns and their truncations, all 2^24 block headers, all 256x256 descriptor/window pairs x field boundary values and their truncations, all 1/2/3-byte literals-header strings, 4-/5-byte forms) through the crate's real functions, compared with tables transcribed from RFC 8878 in zmodel; non-trivial = accepted by the specification and carrying extra bits / a legal value");
+    run.set("rule", "every value of each finite domain (literal lengths 0..=131071, match lengths 3..=131074, offset values, sequence counts 1..=98047, all 1/2/3-byte count patterns and their truncations, all 2^24 block headers, all 256x256 descriptor/window pairs x field boundary values and their truncations, all 1/2/3-byte literals-header strings, 4-/5-byte forms, the raw and the Huffman literals-header writers over every length up to 4096/4200 and around every power of two - every length up to the block size in the thorough tier) through the crate's real functions, compared with tables transcribed from RFC 8878 in zmodel; non-trivial = accepted by the specification and carrying extra bits / a legal value");
     run.sample(json!({"fn": "encode_literal_length", "value": 65535, "expected": [34, 32767, 15]}));
     run.sample(json!({"fn": "encode_seqnum", "value": 0x7F00, "expected_bytes": "ff0000"}));
     run.sample(json!({"fn": "read_block_header", "bytes": "fdff1f", "expected": "type 2, last, size 262143 -> refused (> 128 KiB)"}));
